@@ -2,6 +2,8 @@ import GA.Go.Path
 import Driver.Proto
 import GA.M.Compress
 import GA.M.Unshare
+import GA.M.Rewrite
+import GA.M.Changes
 /-
   Line-protocol driver: one case per line on stdin, one canonical outcome per
   line on stdout.  Core-only imports, so it links as a native executable.
@@ -47,6 +49,18 @@ def handle (line : String) : String :=
         else if which = "rootpair" then show2 (rootPair o)
         else "bad-op"
       | _, _ => "bad-op"
+  | "rebase" :: old :: new :: "E" :: n :: rest =>
+      match strOfHex old, strOfHex new, n.toNat? with
+      | some o, some nw, some k =>
+        match (pMany pEntry k).run rest with
+        | some (es, _) => "ok " ++ renderEntries (GA.Rewrite.rebaseM o nw (es, .eof)).1
+        | none => "bad-case"
+      | _, _, _ => "bad-op"
+  | "dirent" :: a :: _ => match strOfHex a with
+      | some buf =>
+        let r := GA.Changes.parseDirent buf.length buf []
+        "OK " ++ toString r.1 ++ " " ++ toString r.2.length ++ String.join (r.2.map fun x => " " ++ showStr x.1 ++ ":" ++ toString x.2)
+      | none => "bad-op"
   | "within" :: a :: b :: _ => match strOfHex a, strOfHex b with
       | some x, some y => if isWithin x y then "OK 01" else "OK 00" | _, _ => "bad-op"
   | op :: _ => if op = "untar" ∨ op = "layer" ∨ op = "untar-chroot" ∨ op = "layer-chroot" then handleFs ws else if op = "tar" ∨ op = "tar-chroot" then handlePack ws else "bad-op"
